@@ -387,14 +387,15 @@ class IASolverBaseClass:  # pylint: disable=R0902
             numpy array) of one user. This is a 1D numpy array of 2D numpy
             arrays.
         """
-        self._clear_receive_filter()
-
         if W is None and W_H is None:
             raise RuntimeError("Either 'W' or 'W_H' must be provided.")
 
         if W is not None and W_H is not None:
             raise RuntimeError("Either 'W' or 'W_H' must be provided ("
                                "but not both of them.")
+
+        # Only clear the current filters once the arguments were accepted
+        self._clear_receive_filter()
 
         self._W = W
         self._W_H = W_H
